@@ -1,7 +1,13 @@
 //! vcheck <ID> [--tier quick|thorough] [--replay FILE] [--seed N] [--cases N] [--jobs N]
 
+mod arith;
 mod common;
 mod c01;
+mod c02;
+mod c03;
+mod c04;
+mod c05;
+mod c16;
 
 use engine::{run_prop, Opts};
 
@@ -15,6 +21,11 @@ fn main() {
     let opts = Opts::from_args(&args[1..]);
     match id.as_str() {
         "C01" => run_prop(c01::C01, &opts),
+        "C02" => run_prop(c02::C02, &opts),
+        "C03" => run_prop(c03::C03, &opts),
+        "C04" => run_prop(c04::C04, &opts),
+        "C05" => run_prop(c05::C05, &opts),
+        "C16" => run_prop(c16::C16, &opts),
         o => {
             eprintln!("unknown property {o}");
             std::process::exit(2);
